@@ -192,6 +192,18 @@ def h_rand_scorer(ctx, cfg):
     with _Streams(ctx) as st:
         h = sm.score_chunk(rand.RandomScorer(), None, screen, None, rng=ctx.rng("R"), n_chunks=1, chunk_index=0)
     ctx.prove(h.current_index == 3, "random scorer scores every candidate plate")
+    # in chunks: every chunk draws from the generator it is given, in the state it is given - not from generators spawned
+    # off it (numpy derives those from a hidden spawn counter of the seed sequence, not from the generator's state)
+    for n_chunks in (2, 3):
+        for c in range(n_chunks):
+            g = ctx.rng("R%d_%d" % (n_chunks, c))
+            with _Streams(ctx) as st2:
+                hc = sm.score_chunk(rand.RandomScorer(), None, screen, None, rng=g, n_chunks=n_chunks, chunk_index=c)
+            ctx.prove(not any(m == "spawn" for m, _ in g.log), "a chunk's scores are drawn from the generator passed in, not from a generator spawned off it",
+                      key="score_chunk draws from a spawned generator")
+            ctx.prove(g.count >= (1 if hc.current_index else 0), "a non-empty chunk consumes draws of the generator passed in",
+                      key="score_chunk draws from a spawned generator")
+            _judge(ctx, st2, "score_chunk (chunk %d of %d) with the random scorer" % (c, n_chunks))
     return _judge(ctx, st, "score_chunk with the random scorer")
 
 
